@@ -19,6 +19,8 @@ def plan(tier, seed):
                env=dict(VERIF_SLEN=sl, VERIF_KIND=kind))
         j["name"] += "[kind=%d]" % kind
         jobs.append(j)
+    jobs.append(ch("C14", F, "h_many_fast_parsed", t, ["util.metadata_from_many (footer-gathering path)",
+                                                          "util._get_fmd"]))
     from . import cats
     jobs += cats.jobs("C14", tier)
     jobs.append(ch("C14", "vf/pyshim/h_open.py", "h_open_directory", t,
